@@ -29,7 +29,16 @@ def run(ctx):
         # small part of the box: the reported best must be that value from the moment it is observed
         refine.refine_batch(ctx, ctx.size(30, 300), salt=61, force=_jackpot, pid=PID, name="trace-refinement(objective with an infinitely good region)"),
         runs.monitor_batch(ctx, PID, ctx.size(40, 400), salt=63, name="traced-runs-monitor-C04(objective with an infinitely good region)", force=_jackpot),
+        # cached problems (FunctionProblem(use_cache=True)), one objective per level, many trees per process: the
+        # reported best must be a value the level's own objective returned
+        runs.monitor_batch(ctx, PID, ctx.size(40, 400), salt=65, name="traced-runs-monitor-C04(cached problems, one objective per level)", force=_cached),
     ]
+
+
+def _cached(rng):
+    from . import c02
+
+    return c02._cached(rng)
 
 
 def _jackpot(rng):
